@@ -17,6 +17,13 @@ import OFV.Proofs.C03Normal
 import OFV.Proofs.C03Spec
 import OFV.Proofs.C03Fock
 import OFV.Proofs.C03Valid
+import OFV.Proofs.C03Chemist
+import OFV.Proofs.C03WeylSpec
+import OFV.Proofs.C03Canon3
+import OFV.Proofs.C03Exact
+import OFV.Proofs.C03Main
+import OFV.Proofs.C03Boson
+import OFV.Proofs.C03Tensor
 import Mathlib.Tactic.NormNum
 
 namespace OFV.C03
@@ -82,6 +89,13 @@ theorem normal_ordered_is_normal_fermion (tol : Rat) (a : Op) :
     exact Proofs.C02.adj_mono _ _ (fun l r hlr => okK_fermion_not_bad l r hlr) e.1 (h e he)
   obtain ⟨t, c⟩ := e
   simpa using hb
+
+/-- `is_normal_ordered(normal_ordered(op))` for every BosonOperator (valid action codes): the
+bubble sort leaves no annihilator left of a creator, and the stable index sort of the
+`BosonOperator` constructor keeps creators left of annihilators on every mode. -/
+theorem normal_ordered_is_normal_boson (tol : Rat) (a : Op) (hv : ∀ e ∈ a, ∀ f ∈ e.1, f.2 < 2) :
+    Model.C02.bosonIsNormalOrdered (normalOrdered tol .boson a) = true :=
+  normalOrdered_boson_isNormal tol a hv
 
 /-- A normal-ordered fermion term is a fixed point: `normal_ordered_ladder_term(t, c)` is the
 single term `{t: c}` (unless `|c| < tol`, which `+=` deletes). -/
@@ -182,5 +196,175 @@ theorem normal_ordered_sound_melF (a : Op) (hv : ∀ e ∈ a, ∀ f ∈ e.1, f.2
   have hv' : ∀ e ∈ normalOrdered 0 .fermion a, ∀ f ∈ e.1, f.2 < 2 :=
     normalOrdered_valid 0 .fermion (fun f => f.2 < 2) (fun t ht => ht) a hv
   rw [← fock_evalOp_melF _ hv', ← fock_evalOp_melF _ hv, normal_ordered_sound_fock]
+
+/-! ## soundness against the bosonic / quadrature Spec itself (polynomial representation)
+
+`weylInterp` lifts the local exponent rules of `Spec.actB` / `Spec.actQuad` (`b_j^† = x_j·`,
+`b_j = ∂_j`; `q_j = x_j·`, `p_j = -iħ ∂_j`) to endomorphisms of the free module over occupation
+functions; it satisfies the CCR / `[q, p] = iħ` (`weyl_ccr`, `weyl_pq`), and its coefficients are
+those of the executable `Spec.applyOp` on canonical exponent vectors (`weyl_evalOp_apply`). -/
+
+/-- bosons: every coefficient of `normal_ordered(A)·x^s` equals that of `A·x^s` (all canonical
+exponent vectors `s`, `out`; action codes 0 / 1) — what `spec.eq` tests, for ALL inputs. -/
+theorem normal_ordered_sound_boson_spec (a : Op) (hv : ∀ e ∈ a, ∀ f ∈ e.1, f.2 < 2)
+    (s out : Spec.Mono) (hs : Trimmed s) (ho : Trimmed out) :
+    Spec.GV.coeff (Spec.applyOp .boson (normalOrdered 0 .boson a) s) out =
+      Spec.GV.coeff (Spec.applyOp .boson a s) out :=
+  normalOrdered_sound_boson_spec a hv s out hs ho
+
+/-- quadratures, EVERY `ħ`: same statement for `normal_ordered(A, hbar)` in the Schrödinger
+representation `p = -iħ ∂` (the nested-contraction defect F03 would falsify it for `ħ ≠ 1`). -/
+theorem quad_sound_hbar_spec (hbar : GQ) (a : Op) (s out : Spec.Mono) (hs : Trimmed s) (ho : Trimmed out) :
+    Spec.GV.coeff (Spec.applyOp (.quad hbar) (normalOrdered 0 (.quad hbar) a) s) out =
+      Spec.GV.coeff (Spec.applyOp (.quad hbar) a s) out :=
+  normalOrdered_sound_quad_spec hbar a s out hs ho
+
+/-! ## canonicity (fermions): the normal-ordered form is unique -/
+
+/-- **Normal-ordered monomials are linearly independent**: two dictionaries of distinct, valid,
+normal-ordered fermion terms with the same Spec matrix elements on all pairs of Fock basis states
+have the same coefficient for every term (missing = 0).  Proof: among the terms with different
+coefficients take one whose annihilator mask is numerically minimal and evaluate on the state
+occupying exactly its annihilated modes. -/
+theorem normal_monomials_independent_fermion (A B : Op) (wa : Dict.WF A) (wb : Dict.WF B)
+    (va : ∀ e ∈ A, ∀ f ∈ e.1, f.2 < 2) (vb : ∀ e ∈ B, ∀ f ∈ e.1, f.2 < 2)
+    (na : ∀ e ∈ A, Spec.C02.NormalOrderedF e.1) (nb : ∀ e ∈ B, Spec.C02.NormalOrderedF e.1)
+    (h : ∀ s out, Spec.melF A out s = Spec.melF B out s) :
+    ∀ t, Dict.getD A t 0 = Dict.getD B t 0 :=
+  canonicity_normal A B wa wb va vb na nb h
+
+/-- the result of `normal_ordered` on a FermionOperator: distinct keys, valid codes, normal order -/
+theorem normal_ordered_fermion_wellformed (tol : Rat) (a : Op) (hv : ∀ e ∈ a, ∀ f ∈ e.1, f.2 < 2) :
+    Dict.WF (normalOrdered tol .fermion a) ∧
+    (∀ e ∈ normalOrdered tol .fermion a, ∀ f ∈ e.1, f.2 < 2) ∧
+    (∀ e ∈ normalOrdered tol .fermion a, Spec.C02.NormalOrderedF e.1) := by
+  have hval := normalOrdered_valid tol .fermion (fun f => f.2 < 2) (fun t ht => ht) a hv
+  refine ⟨wf_normalOrdered tol .fermion a, hval, ?_⟩
+  intro e he
+  have h := normalOrdered_norm tol .fermion (fun t => Proofs.C02.Adj (okK .fermion) t) (fun t ht => ht) a e he
+  rw [← Proofs.C02.fermion_term_normal_iff e.1 (hval e he), Proofs.C02.loopBad_false_iff_adj]
+  exact Proofs.C02.adj_mono _ _ (fun l r hlr => okK_fermion_not_bad l r hlr) e.1 h
+
+/-- **Canonicity**: two FermionOperators denote the same operator (same Spec matrix elements on
+all Fock basis states) IF AND ONLY IF their normal-ordered forms have equal coefficients. -/
+theorem canonicity_fermion (a b : Op) (va : ∀ e ∈ a, ∀ f ∈ e.1, f.2 < 2) (vb : ∀ e ∈ b, ∀ f ∈ e.1, f.2 < 2) :
+    (∀ s out, Spec.melF a out s = Spec.melF b out s) ↔
+      ∀ t, Dict.getD (normalOrdered 0 .fermion a) t 0 = Dict.getD (normalOrdered 0 .fermion b) t 0 := by
+  obtain ⟨wa, va', na⟩ := normal_ordered_fermion_wellformed 0 a va
+  obtain ⟨wb, vb', nb⟩ := normal_ordered_fermion_wellformed 0 b vb
+  constructor
+  · intro h
+    apply canonicity_normal _ _ wa wb va' vb' na nb
+    intro s out
+    rw [normal_ordered_sound_melF a va, normal_ordered_sound_melF b vb, h]
+  · intro h s out
+    rw [← normal_ordered_sound_melF a va, ← normal_ordered_sound_melF b vb]
+    exact melF_congr _ _ wa wb h out s
+
+/-- idempotence as an operator statement: normal ordering twice gives the same coefficients. -/
+theorem normal_ordered_idempotent (a : Op) (va : ∀ e ∈ a, ∀ f ∈ e.1, f.2 < 2) :
+    ∀ t, Dict.getD (normalOrdered 0 .fermion (normalOrdered 0 .fermion a)) t 0 =
+      Dict.getD (normalOrdered 0 .fermion a) t 0 := by
+  obtain ⟨_, va', _⟩ := normal_ordered_fermion_wellformed 0 a va
+  exact (canonicity_fermion (normalOrdered 0 .fermion a) a va' va).1
+    (fun s out => normal_ordered_sound_melF a va out s)
+
+/-! ## the exact regime: the real tolerance versus tolerance 0
+
+The theorems above are about the Model run with tolerance 0; the code (and the driver) run with
+`EQ_TOLERANCE`.  On inputs whose coefficients lie on a lattice `(1/D)·ℤ[i]` with `tol·D ≤ 1`
+(all dyadic inputs of the correspondence run: `D = 2^k`, `k ≤ 26` for `tol = 1e-8`) `+=` only
+deletes exact zeros, and both runs return the same coefficients. -/
+
+/-- same coefficient for every term, whatever the tolerance (`tol·D ≤ 1`). -/
+theorem normal_ordered_exact_regime (D : Nat) (hD : 0 < D) (tol : Rat) (h0 : 0 ≤ tol) (h1 : tol * D ≤ 1)
+    (k : Kind) (hk : LatticeKind k) (a : Op) (la : ∀ e ∈ a, Lat D e.2) :
+    ∀ t, Dict.getD (normalOrdered tol k a) t 0 = Dict.getD (normalOrdered 0 k a) t 0 := by
+  have hkk : ∀ c, Lat D c → Lat D (k.swapCoeff c) ∧ Lat D (k.contractCoeff c) := by
+    cases k with
+    | fermion => exact hk_fermion D
+    | boson => exact hk_boson D
+    | quad h => exact hk_quad D h hk
+  have hmk : ∀ t c, Lat D c → Lat D (c * (simplify k.cls t).1) := by
+    intro t c hc
+    cases k <;> exact lat_mul_one D c hc
+  exact (normalOrdered_sim D hD tol h0 h1 k hkk hmk a la).2.2.2.2
+
+/-- … so soundness holds for the tolerance the code uses (fermions, lattice inputs). -/
+theorem normal_ordered_sound_melF_tol (D : Nat) (hD : 0 < D) (tol : Rat) (h0 : 0 ≤ tol) (h1 : tol * D ≤ 1)
+    (a : Op) (hv : ∀ e ∈ a, ∀ f ∈ e.1, f.2 < 2) (la : ∀ e ∈ a, Lat D e.2) (out s : Nat) :
+    Spec.melF (normalOrdered tol .fermion a) out s = Spec.melF a out s := by
+  rw [← normal_ordered_sound_melF a hv out s]
+  exact melF_congr _ _ (wf_normalOrdered tol .fermion a) (wf_normalOrdered 0 .fermion a)
+    (normal_ordered_exact_regime D hD tol h0 h1 .fermion trivial a la) out s
+
+-- non-vacuity: the extracted EQ_TOLERANCE admits the dyadic lattice 2^-26
+example : (0 : Rat) ≤ Generated.eqTolerance ∧ Generated.eqTolerance * ((2 ^ 26 : Nat) : Rat) ≤ 1 := by
+  constructor <;> norm_num [Generated.eqTolerance]
+
+/-! ## the InteractionOperator branch -/
+
+/-- the three generators (`quadratic`, `cubic`, `quartic` index pairs built from
+`itertools.combinations` of the reversed range) enumerate EXACTLY the pairs `((p,q),(r,s))` with
+`n > p > q` and `n > r > s`. -/
+theorem interaction_index_pairs_iff (n : Nat) (x : Pair × Pair) :
+    x ∈ indexPairs n ↔ (x.1.2 < x.1.1 ∧ x.1.1 < n ∧ x.2.2 < x.2.1 ∧ x.2.1 < n) :=
+  mem_indexPairs_iff n x
+
+/-- closed form of the scattered assignments: the new two-body tensor is the antisymmetrised old
+one on `p > q ∧ r > s` and zero elsewhere (in particular: supported on `p > q, r > s`). -/
+theorem interaction_closed_form (n : Nat) (T : List GQ) (p q r s : Nat)
+    (hp : p < n) (hq : q < n) (hr : r < n) (hs : s < n) :
+    t4 n (normalOrderedTwoBody n T) p q r s =
+      if q < p ∧ s < r then antisym n T (p, q) (r, s) else 0 :=
+  normalOrderedTwoBody_closed n T p q r s hp hq hr hs
+
+/-- `normal_ordered(InteractionOperator)`: the new two-body tensor denotes the same operator
+`Σ T[p,q,r,s] a^†_p a^†_q a_r a_s`, for every interpretation satisfying the CAR (constant and
+one-body tensor are copied unchanged by the code: checked by the correspondence run). -/
+theorem interaction_normal_ordered_sound (I : Interp A)
+    (car_same : ∀ x l : Factor, x.2 = l.2 → x.1 ≠ l.1 → I.g l * I.g x + I.g x * I.g l = 0)
+    (car_sq : ∀ x l : Factor, x.2 = l.2 → x.1 = l.1 → I.g l * I.g x = 0) (n : Nat) (T : List GQ) :
+    den2 I n (normalOrderedTwoBody n T) = den2 I n T := by
+  have anti : ∀ (a p q : Nat), I.g (q, a) * I.g (p, a) = -(I.g (p, a) * I.g (q, a)) := by
+    intro a p q
+    by_cases h : p = q
+    · subst h
+      have := car_sq (p, a) (p, a) rfl rfl
+      rw [this]; simp
+    · have := car_same (p, a) (q, a) rfl h
+      exact eq_neg_of_add_eq_zero_left this
+  exact normalOrderedTwoBody_sound I n T (anti 1) (fun p => car_sq (p, 1) (p, 1) rfl rfl)
+    (anti 0) (fun r => car_sq (r, 0) (r, 0) rfl rfl)
+
+/-- … in particular in Fock space (the Spec). -/
+theorem interaction_normal_ordered_sound_fock (n : Nat) (T : List GQ) :
+    den2 fockInterp n (normalOrderedTwoBody n T) = den2 fockInterp n T :=
+  interaction_normal_ordered_sound fockInterp fock_car_same fock_car_sq n T
+
+/-! ## `chemist_ordered` and `reorder` only rewrite the operator -/
+
+/-- `chemist_ordered(op)` denotes the same operator, for every interpretation satisfying the CAR
+(uses: the normal-ordered intermediate is in normal order and inherits valid action codes, so the
+middle pair of each two-body term satisfies `x y + y x = δ`). -/
+theorem chemist_ordered_sound (I : Interp A)
+    (car_mixed : ∀ x l : Factor, x.2 ≠ 0 → l.2 = 0 →
+      I.g l * I.g x + I.g x * I.g l = if x.1 = l.1 then 1 else 0)
+    (car_same : ∀ x l : Factor, x.2 = l.2 → x.1 ≠ l.1 → I.g l * I.g x + I.g x * I.g l = 0)
+    (car_sq : ∀ x l : Factor, x.2 = l.2 → x.1 = l.1 → I.g l * I.g x = 0)
+    (a : Op) (hv : ∀ e ∈ a, ∀ f ∈ e.1, f.2 < 2) :
+    I.evalOp (chemistOrdered 0 a) = I.evalOp a :=
+  chemistOrdered_sound I car_mixed car_same car_sq a hv
+
+/-- … in particular in Fock space (the Spec). -/
+theorem chemist_ordered_sound_fock (a : Op) (hv : ∀ e ∈ a, ∀ f ∈ e.1, f.2 < 2) :
+    fockInterp.evalOp (chemistOrdered 0 a) = fockInterp.evalOp a :=
+  chemistOrdered_sound fockInterp fock_car_mixed fock_car_same fock_car_sq a hv
+
+/-- `reorder(op, order_function)` denotes the operator with relabelled modes
+`a_p ↦ a_{f(p)}` (FermionOperator; `m` is the list `[f(0), f(1), …]`; no condition on `f`). -/
+theorem reorder_sound (I : Interp A) (m : List Nat) (a : Op) :
+    I.evalOp (reorder 0 .fermion m a) = (I.relabel m).evalOp a :=
+  reorder_sound_gen I .fermion (fun _ => ⟨rfl, rfl⟩) m a
 
 end OFV.C03
